@@ -71,8 +71,6 @@ theorem kept_ensure {now : Int} {c c' : Coll} {d : Val} (h : ensureUniques now c
 
 theorem kept_bump (c : Coll) (n : Nat) : Kept c { c with nextOid := n } := .inr ⟨rfl, id, id⟩
 
-theorem kept_od (c : Coll) (l : List Val) : Kept c { c with od := l } := .inr ⟨rfl, id, id⟩
-
 theorem kept_markStored (c : Coll) (b : Bool) : Kept c (c.markStored b) := by
   cases b with
   | false => exact Kept.refl c
@@ -189,7 +187,7 @@ theorem kept_updateLoop (now : Int) (spec document nowV : Val) (multi : Bool) :
           | ok new =>
             dsimp only
             have hs := kept_setDoc c key new hk
-            by_cases hc : (if c.isOD key then pyEqOrdered new cur else pyEq new cur) = true
+            by_cases hc : pyEq new cur = true
             · rw [if_pos hc]
               cases hu : ensureUniques now (c.setDoc key new) new with
               | error e => exact Kept.refl c
@@ -260,9 +258,7 @@ theorem kept_afterLoop (now : Int) (spec document nowV : Val) (ss dfs : Fields) 
           obtain ⟨c5, newId⟩ := p
           dsimp only
           have hf := insertDoc_flag hins
-          split
-          · exact Kept.of_flag hf
-          · exact Kept.of_flag hf
+          exact Kept.of_flag hf
 
 theorem kept_applyUpdateColl (cfg : Cfg) (now : Int) (c : Coll) (f u : Val) (upsert multi : Bool) :
     Kept c (applyUpdateColl cfg now c f u upsert multi).1 := by
